@@ -525,8 +525,23 @@ pub fn run_check(opt: &Options) -> i32 {
     let wall = t0.elapsed().as_secs_f64();
     let evals = totals.runs + totals.systematic_cases;
     let level = props::level(prop);
+    // deterministic choice (lowest run indices) and bounded size: a scenario with 70 kB payloads
+    // serialises to megabytes, which does not belong into an evidence file
     let mut samples = totals.samples.clone();
+    samples.sort_by_key(|s| s.get("run").and_then(|r| r.as_u64()).unwrap_or(u64::MAX));
     samples.truncate(3);
+    for s in samples.iter_mut() {
+        let size = serde_json::to_string(s).map(|t| t.len()).unwrap_or(0);
+        if size > 40_000 {
+            let steps = s.get("scenario").and_then(|x| x.get("steps")).and_then(|x| x.as_array()).map(|a| a.len()).unwrap_or(0);
+            *s = json!({
+                "run": s.get("run").cloned().unwrap_or(serde_json::Value::Null),
+                "profile": s.get("profile").cloned().unwrap_or(serde_json::Value::Null),
+                "steps": steps,
+                "note": format!("scenario omitted ({size} bytes of JSON); regenerate it with `posim gen <ID> --seed <seed> --run <run>`"),
+            });
+        }
+    }
     if samples.is_empty() {
         samples.push(json!({"note": "no non-trivial sample captured"}));
     }
